@@ -12,7 +12,7 @@ from .c16 import items
 from . import c02, c01
 
 ensure_repo_import()
-from CircuitCalculator.Circuit.solution import DCSolution, ComplexSolution, TimeDomainSolution  # noqa: E402
+from CircuitCalculator.Circuit.solution import DCSolution, ComplexSolution, TimeDomainSolution, TransientSolution  # noqa: E402
 
 PROP = 'C05'
 RULE = ('scenarios = reachable networks of MC_C01 (network-level get_power) and circuits of MC_C02 (DC, peak, RMS and time-domain powers at every analysed frequency); '
@@ -21,15 +21,17 @@ RULE = ('scenarios = reachable networks of MC_C01 (network-level get_power) and 
 
 def models(tier, seed):
     if tier == 'quick':
-        return [dict(module='MC_C02.tla', cfg='MC_C05_quick.cfg', batch=100), dict(module='MC_C01.tla', cfg='MC_C05_net.cfg', batch=200)]
+        return [dict(module='MC_C02.tla', cfg='MC_C05_quick.cfg', batch=100), dict(module='MC_C01.tla', cfg='MC_C05_net.cfg', batch=200),
+                dict(module='MC_C12.tla', cfg='MC_C03_dyn.cfg', batch=20)]
     return [dict(module='MC_C02.tla', cfg='MC_C05_quick.cfg', batch=100), dict(module='MC_C01.tla', cfg='MC_C05_net.cfg', batch=200),
+            dict(module='MC_C12.tla', cfg='MC_C12_quick.cfg', batch=20),
             dict(module='MC_C02.tla', cfg='MC_C05_thorough.cfg', simulate='num=100000000', depth=4, seed=seed, max_cases=60000, shards=12, batch=50),
             dict(module='MC_C02.tla', cfg='MC_C05_sim.cfg', simulate='num=100000000', depth=5, seed=seed + 1, max_cases=30000, shards=12, batch=50),
             dict(module='MC_C01.tla', cfg='MC_C01_simc.cfg', simulate='num=100000000', depth=6, seed=seed + 2, max_cases=40000, shards=12, batch=100)]
 
 
 def required_tags(tier):
-    return ['network', 'circuit', 'peak', 'rms', 'dc', 'time_domain', 'k:capacitor', 'k:inductance', 'k:resistor', 'linear_src']
+    return ['network', 'circuit', 'peak', 'rms', 'dc', 'time_domain', 'k:capacitor', 'k:inductance', 'k:resistor', 'linear_src', 'transient', 'transient:requeried']
 
 
 def replay(case, ctx):
@@ -38,6 +40,8 @@ def replay(case, ctx):
         r.tags = sorted(set(r.tags) | {'network'})
         # only the power observations are this property's; the others are C01's - keep them, they cannot disagree
         return r
+    if 'A' in case:                       # dynamic circuit of MC_C12: transient powers
+        return replay_transient(case, ctx)
     comps = case['comps']
     h = stable_hash(comps)
     r = CaseResult(case_id=f'{h:x}')
@@ -106,5 +110,86 @@ def replay(case, ctx):
                         mism.append({'what': f'TimeDomainSolution.get_power({cid!r})(t={ts[j]})', 'got': repr(got[j]), 'want': repr(v[j] * i[j]), 'signature': 'value:time:get_power', 'detail': ctxs})
                         break
     r.nontrivial = any_ok
+    r.tags = sorted(tg)
+    return r
+
+
+def replay_transient(case, ctx):
+    """transient results: reported power = v(t) * i(t) at every sample - for every element, in whatever order and however often the same
+    solution object is asked - and the powers of all elements sum to zero at every sample (Tellegen on instantaneous values)"""
+    comps = case['comps']
+    h = stable_hash(comps)
+    r = CaseResult(case_id=f'{h:x}')
+    mism = r.mismatches
+    tg = {'transient'}
+    ng = [c for c in comps if c['kind'] != 'ground']
+    src_ids = case['sources']
+    A = np.array([[float(rat(x)) for x in row] for row in case['A']])
+    eig = np.linalg.eigvals(A)
+    lam = max(abs(eig)) if len(eig) else 1.0
+    scheme = (h % (N_SCHEMES - 1)) + 1 if h % 2 else 0
+    naming = Naming(scheme)
+    ctxs = f'scheme={scheme}'
+    built, e = call(build_circuit, comps, naming, 0, (0, 0, 0))
+    if e is not None:
+        mism.append({'what': 'Circuit(...)', 'got': repr(e), 'want': 'accepted', 'signature': f'exc:construct:{exc_sig(e)}', 'detail': ctxs})
+        return r
+    circuit, ids = built
+    N = 60
+    t = np.linspace(0, 6.0 / lam, N + 1)
+    inputs = {}
+    for q, sid in enumerate(src_ids):
+        inputs[ids[sid]] = (lambda tt, q=q: (1.0 + 0.5 * q) * np.minimum(1.0, np.asarray(tt) * lam) * np.cos(0.7 * lam * np.asarray(tt) * q))
+    sol, e = call(lambda: TransientSolution(circuit, tin=t, input=inputs))
+    if e is not None:
+        mism.append({'what': 'TransientSolution', 'got': repr(e), 'want': 'solution', 'signature': f'exc:transient:{exc_sig(e)}', 'detail': ctxs})
+        return r
+
+    def ask(fn, name):
+        res, e = call(fn, name)
+        if e is not None:
+            mism.append({'what': f'TransientSolution.{fn.__name__}({name!r})', 'got': repr(e), 'want': 'series', 'signature': f'exc:transient:{fn.__name__}:{exc_sig(e)}', 'detail': ctxs})
+            return None
+        return np.array(res[1], dtype=float, copy=True)        # a private copy: what the library hands out may not change under later calls either
+
+    total = np.zeros(N + 1)
+    scale_p = 0.0
+    complete = True
+    for j, c in enumerate(ng):
+        name = ids[c['id']]
+        order = (h >> j) % 3
+        # three interrogation orders of the same solution object; the power is asked twice in each
+        if order == 0:
+            p1 = ask(sol.get_power, name); v = ask(sol.get_voltage, name); i = ask(sol.get_current, name); p2 = ask(sol.get_power, name)
+        elif order == 1:
+            v = ask(sol.get_voltage, name); p1 = ask(sol.get_power, name); i = ask(sol.get_current, name); p2 = ask(sol.get_power, name)
+        else:
+            v = ask(sol.get_voltage, name); i = ask(sol.get_current, name); p1 = ask(sol.get_power, name); p2 = ask(sol.get_power, name)
+        v2 = ask(sol.get_voltage, name)
+        i2 = ask(sol.get_current, name)
+        if any(x is None for x in (p1, p2, v, i, v2, i2)):
+            complete = False
+            continue
+        tg.add('transient:requeried')
+        want = v * i
+        sc = max(np.max(np.abs(v)) * np.max(np.abs(i)), 1e-12)
+        for label, got in (('first', p1), ('second', p2)):
+            r.observations += len(got)
+            if got.shape != want.shape or not np.allclose(got, want, rtol=1e-9, atol=1e-11 * sc):
+                k = int(np.argmax(np.abs(got - want))) if got.shape == want.shape else -1
+                mism.append({'what': f'TransientSolution.get_power({name!r}) ({label} query, order {order}) sample {k}', 'got': repr(got[:6]), 'want': repr(want[:6]),
+                             'signature': f'transient:power:{label}_query', 'detail': ctxs})
+        for label, a, b in (('voltage', v, v2), ('current', i, i2)):
+            r.observations += len(a)
+            if not np.array_equal(a, b):
+                mism.append({'what': f'TransientSolution.get_{label}({name!r}) asked again after get_power', 'got': repr(b[:6]), 'want': repr(a[:6]),
+                             'signature': f'transient:{label}:changed_by_queries', 'detail': ctxs})
+        total += p1
+        scale_p = max(scale_p, float(np.max(np.abs(want))))
+    if complete and ng:
+        r.observations += len(total)
+        if not np.allclose(total, 0.0, atol=1e-8 * max(scale_p, 1e-12)):
+            k = int(np.argmax(np.abs(total)))
+            mism.append({'what': f'sum of the powers of all elements at sample {k}', 'got': repr(total[k]), 'want': '0', 'signature': 'transient:power_balance', 'detail': ctxs})
     r.tags = sorted(tg)
     return r
